@@ -82,9 +82,19 @@ struct Enc {
     crc: u32,
 }
 
-fn encrypt(bits: usize, method: u16, pw: &[u8], plain: &[u8], salt: &[u8]) -> Enc {
+/// The inner (compressed) stream of an entry: the codec libraries called directly.
+fn compress_inner(method: u16, plain: &[u8]) -> Vec<u8> {
+    match method {
+        8 => deflate_raw(plain),
+        12 => super::write::direct_compress(12, 6, &[plain.to_vec()]).expect("bzip2 compresses"),
+        93 => super::write::direct_compress(93, 3, &[plain.to_vec()]).expect("zstd compresses"),
+        _ => plain.to_vec(),
+    }
+}
+
+/// Encrypt a given inner stream (which may carry bytes behind the end of its compressed stream).
+fn encrypt_inner(bits: usize, pw: &[u8], inner: Vec<u8>, plain: &[u8], salt: &[u8]) -> Enc {
     let k = bits / 8;
-    let inner = if method == 8 { deflate_raw(plain) } else { plain.to_vec() };
     let dk = kdf(pw, salt, 2 * k + 2);
     let (ekey, mkey, pvv) = (&dk[..k], &dk[k..2 * k], &dk[2 * k..]);
     let ks = keystream(ekey, (inner.len() + 15) / 16);
@@ -363,6 +373,46 @@ fn run_ctr(a: &BTreeMap<String, String>) -> String {
     }
 }
 
+/// Known-answer vectors for the primitives the harness's encryptor SHARES with the crate under test
+/// (the `aes`, `hmac`, `sha1`, `pbkdf2` crates are one build for both): the published value is in the
+/// op line (`want=`), the primitive is evaluated here, so a defect in a shared dependency - which the
+/// differential comparison cannot see, both sides being wrong alike - shows up as a mismatch.
+fn run_kat(a: &BTreeMap<String, String>) -> String {
+    let prim = a.get("prim").map(|s| s.as_str()).unwrap_or("");
+    let r = match prim {
+        "pbkdf2" => match (get_hex(a, "pw"), get_hex(a, "salt"), get_u64(a, "c"), get_u64(a, "len")) {
+            (Some(pw), Some(salt), Some(c), Some(len)) if c >= 1 && c <= 100_000 && len <= 64 => catch(move || {
+                let mut out = vec![0u8; len as usize];
+                pbkdf2::pbkdf2::<hmac::Hmac<sha1::Sha1>>(&pw, &salt, c as u32, &mut out);
+                out
+            }),
+            _ => return "bad-op".into(),
+        },
+        "hmac" => match (get_hex(a, "key"), get_hex(a, "msg")) {
+            (Some(key), Some(msg)) => catch(move || hmac_sha1(&key, &msg)),
+            _ => return "bad-op".into(),
+        },
+        "aes" => match (get_hex(a, "key"), get_hex(a, "block")) {
+            (Some(key), Some(block)) if block.len() == 16 && [16, 24, 32].contains(&key.len()) => catch(move || {
+                use aes::cipher::{generic_array::GenericArray, BlockEncrypt, KeyInit};
+                let mut blk = GenericArray::clone_from_slice(&block);
+                match key.len() {
+                    16 => aes::Aes128::new(GenericArray::from_slice(&key)).encrypt_block(&mut blk),
+                    24 => aes::Aes192::new(GenericArray::from_slice(&key)).encrypt_block(&mut blk),
+                    _ => aes::Aes256::new(GenericArray::from_slice(&key)).encrypt_block(&mut blk),
+                }
+                blk.to_vec()
+            }),
+            _ => return "bad-op".into(),
+        },
+        _ => return "bad-op".into(),
+    };
+    match r {
+        Ok(v) => format!("kat {}", hex(&v)),
+        Err(_) => "panic".into(),
+    }
+}
+
 fn mode_of(bits: u64) -> Option<zip::verif_hooks::AesMode> {
     use zip::verif_hooks::AesMode::*;
     match bits {
@@ -496,19 +546,12 @@ fn run_read(a: &BTreeMap<String, String>) -> String {
         let method = file.compression().to_u16();
         if api != "loop" {
             let (out, err) = consume(&mut file, &api, f.usize_ as usize);
-            if method != 0 && method != 8 {
-                return "open=ok file=ok read=unmodelled".into();
-            }
             return match err {
                 Some(c) => format!("open=ok file=ok read={}", c),
                 None => format!("open=ok file=ok read=ok len={} h={}", out.len(), fnv64(&out)),
             };
         }
         let l = caller_loop(&mut file, &bufs, limit);
-        if method != 0 && method != 8 {
-            // bzip2 / zstd decoders are outside this model; the run above still counts for the no-panic oracle
-            return "open=ok file=ok read=unmodelled".into();
-        }
         let ag = if method == 0 { format!(" again={}", l.again) } else { String::new() };
         match l.err {
             Some(c) if method == 0 => format!("open=ok file=ok read={} after={}{}", c, l.out.len(), ag),
@@ -555,6 +598,52 @@ fn inflate_probe(d: &[u8]) -> (&'static str, usize, Vec<u8>) {
             }
         }
     }
+}
+
+/// Source that records how its consumer reads it.
+struct CountRead<'a> {
+    d: &'a [u8],
+    pos: usize,
+    calls: usize,
+    req_min: usize,
+    req_max: usize,
+}
+
+impl<'a> Read for CountRead<'a> {
+    fn read(&mut self, buf: &mut [u8]) -> std::io::Result<usize> {
+        self.calls += 1;
+        self.req_min = self.req_min.min(buf.len());
+        self.req_max = self.req_max.max(buf.len());
+        let n = buf.len().min(self.d.len() - self.pos);
+        buf[..n].copy_from_slice(&self.d[self.pos..self.pos + n]);
+        self.pos += n;
+        Ok(n)
+    }
+}
+
+/// The bzip2 / zstd reader adapters (the codec crates called directly, the same constructors the
+/// crate uses) over the stream `d`, read to the end: outcome (`end` or the error class), how many
+/// `read` calls of which size they made on their source (their `BufReader` refills), and the output.
+/// The decoders are parameters of the model; this table is what instantiates them.
+fn pull_probe(method: u16, d: &[u8]) -> (String, usize, usize, Vec<u8>) {
+    let mut src = CountRead { d, pos: 0, calls: 0, req_min: usize::MAX, req_max: 0 };
+    let mut out = vec![];
+    let r = match method {
+        12 => bzip2::read::BzDecoder::new(&mut src).read_to_end(&mut out),
+        93 => match zstd::stream::read::Decoder::new(&mut src) {
+            Ok(mut dec) => dec.read_to_end(&mut out),
+            Err(e) => Err(e),
+        },
+        _ => Err(std::io::Error::new(std::io::ErrorKind::Other, "no adapter")),
+    };
+    let res = match r {
+        Ok(_) => "end".to_string(),
+        Err(e) => ioerr_class(&e).replace("err ", "err:"),
+    };
+    if src.calls > 0 && src.req_min != src.req_max {
+        return ("var".into(), src.calls, src.req_max, out);
+    }
+    (res, src.calls, if src.calls == 0 { 0 } else { src.req_max }, out)
 }
 
 /// (table string, decrypted stream the AES layer can deliver when the verifier matches)
@@ -608,6 +697,11 @@ fn read_line(exp: &str, info: &str, f: &Fields, bits: usize, csize_eff: u64, try
             let (res, zc, out) = inflate_probe(&d);
             format!("zh={} zl={} zres={res} zc={zc} zout={}", fnv64(&d), d.len(), hex(&out))
         }
+        Some(d) if inner_m == Some(12) || inner_m == Some(93) => {
+            let (res, zn, zfill, out) = pull_probe(inner_m.unwrap(), &d);
+            let zpl = (zn * zfill).min(d.len());
+            format!("zh={} zl={} zres={res} zn={zn} zfill={zfill} zpl={zpl} zph={} zout={}", fnv64(&d), d.len(), fnv64(&d[..zpl]), hex(&out))
+        }
         _ => "zh=0 zl=0 zres=none zc=0 zout=-".to_string(),
     };
     format!(
@@ -655,7 +749,13 @@ struct Built {
 
 #[allow(clippy::too_many_arguments)]
 fn build_case(ver: u16, bits: usize, method: u16, pw: &[u8], plain: &[u8], salt: &[u8], tail: bool, pre: bool) -> Built {
-    let enc = encrypt(bits, method, pw, plain, salt);
+    build_case_inner(ver, bits, method, pw, compress_inner(method, plain), plain, salt, tail, pre)
+}
+
+/// The same with a given inner stream (e.g. a compressed stream followed by further bytes).
+#[allow(clippy::too_many_arguments)]
+fn build_case_inner(ver: u16, bits: usize, method: u16, pw: &[u8], inner: Vec<u8>, plain: &[u8], salt: &[u8], tail: bool, pre: bool) -> Built {
+    let enc = encrypt_inner(bits, pw, inner, plain, salt);
     let f = Fields {
         flag: 1,
         cmethod: 99,
@@ -715,7 +815,13 @@ impl Stream for Aes {
                   right-password / flipped / wrong-CRC / truncated cases are repeated through read_to_end, io::copy, \
                   read_exact(declared size)+EOF probe and bytes() in rotation (api=), and the >32 KiB deflated entries whose \
                   first-ciphertext-byte flip ends the compressed stream early through ALL of them. aes.layer: AesReader through the hook over \
-                  a short-read source. aes.ctr: key stream chunking through the hook. aes.extra: central header parse. \
+                  a short-read source. aes.ctr: key stream chunking through the hook. aes.extra: central header parse. Inner methods \
+                  8 / 12 / 93 carry REAL deflate / bzip2 / zstd streams (codec crates called directly; the decoders are \
+                  tables: inflate by the low-level Decompress, bzip2 / zstd by their reader adapters over a counting source); \
+                  tail cases: a complete compressed stream followed by 36 000 authenticated bytes the decoder never asks \
+                  for, honest and with one flipped bit in the tail / code, through every consumer API. corpus/aes.ops: \
+                  known-answer vectors (RFC 6070 PBKDF2-HMAC-SHA1, RFC 2202 HMAC-SHA1, FIPS-197 AES, OpenSSL-derived \
+                  little-endian-counter CTR key streams through the crate's hook, the WinZip fixture with frozen tables). \
                   distinct = distinct op lines; non-trivial = entry opened and at least one read call made".into();
         let pws: [(&str, Vec<u8>); 3] = [("empty", vec![]), ("ascii", b"helloworld".to_vec()), ("binary", vec![0, 255, 1, 128, 10, 13, 32, 61, 0])];
         let mut idx = 0u64;
@@ -725,7 +831,7 @@ impl Stream for Aes {
         let mut api_rot = 0usize;
         for ver in [1u16, 2] {
             for bits in [128usize, 192, 256] {
-                for method in [0u16, 8] {
+                for method in [0u16, 8, 12, 93] {
                     for len in [0usize, 1, 15, 16, 17, 33, 100, 1000] {
                         for (pn, pw) in pws.iter() {
                             let mut r = next_rng();
@@ -795,23 +901,23 @@ impl Stream for Aes {
                 }
             }
         }
-        // deflated entries, sampled flips
+        // compressed entries (deflate, bzip2, zstd), sampled flips
         for ver in [1u16, 2] {
-            for bits in [128usize, 256] {
+            for (bits, cm) in [(128usize, 8u16), (256, 8), (192, 12), (256, 12), (128, 93), (192, 93)] {
                 let mut r = next_rng();
                 let pw = b"pw".to_vec();
                 let plain = mk_plain(&mut r, 200);
                 let salt = r.bytes(bits / 16);
-                let b = build_case(ver, bits, 8, &pw, &plain, &salt, false, false);
+                let b = build_case(ver, bits, cm, &pw, &plain, &salt, false, false);
                 let total = b.enc.payload.len();
                 for _ in 0..(if thorough { 200 } else { 10 }) {
                     let bit = r.below(total as u64 * 8) as usize;
                     let mut f2 = Fields { body: b.f.body.clone(), extra: b.f.extra.clone(), pre: None, ..b.f };
                     f2.body[bit / 8] ^= 1 << (bit % 8);
-                    let info = format!("ae{ver}/{bits}/m8/len200/flip-{}:{bit}", region(bits, total, bit / 8));
-                    g.push("read.flip.deflated", read_line("tamper", &info, &f2, bits, f2.csize as u64, Some(&pw), &b.enc.inner, &plain, "64"));
+                    let info = format!("ae{ver}/{bits}/m{cm}/len200/flip-{}:{bit}", region(bits, total, bit / 8));
+                    g.push(&format!("read.flip.m{cm}"), read_line("tamper", &info, &f2, bits, f2.csize as u64, Some(&pw), &b.enc.inner, &plain, "64"));
                     let api = APIS[1 + bit % 4];
-                    g.push(&format!("read.flip.deflated.api-{api}"), with_api(read_line("tamper", &info, &f2, bits, f2.csize as u64, Some(&pw), &b.enc.inner, &plain, "64"), api));
+                    g.push(&format!("read.flip.m{cm}.api-{api}"), with_api(read_line("tamper", &info, &f2, bits, f2.csize as u64, Some(&pw), &b.enc.inner, &plain, "64"), api));
                 }
             }
         }
@@ -819,7 +925,7 @@ impl Stream for Aes {
         // ---- C. CRC: enforced for AE-1, ignored for AE-2
         for ver in [1u16, 2] {
             for bits in [128usize, 192, 256] {
-                for method in [0u16, 8] {
+                for method in [0u16, 8, 12, 93] {
                     for len in [0usize, 5, 100] {
                         let mut r = next_rng();
                         let pw = b"helloworld".to_vec();
@@ -844,7 +950,7 @@ impl Stream for Aes {
         // ---- D. truncated entries and entries shorter than the fixed overhead
         for ver in [1u16, 2] {
             for bits in [128usize, 192, 256] {
-                for (method, len) in [(0u16, 40usize), (8, 300), (0, 0)] {
+                for (method, len) in [(0u16, 40usize), (8, 300), (0, 0), (12, 300), (93, 300)] {
                     let mut r = next_rng();
                     let pw = b"helloworld".to_vec();
                     let plain = mk_plain(&mut r, len);
@@ -1032,32 +1138,83 @@ impl Stream for Aes {
 
         // ---- H. entries larger than the decoder's 32 KiB input buffer (regression tests for D12: a
         // ciphertext flip that ends the compressed stream early must still fail at end-of-file)
-        for (ver, bits, method) in [(2u16, 256usize, 8u16), (1, 128, 8), (2, 192, 0), (1, 256, 0)] {
+        for (ver, bits, method) in [(2u16, 256usize, 8u16), (1, 128, 8), (2, 192, 0), (1, 256, 0), (2, 128, 12), (2, 256, 93)] {
+            if tier == "quickx" && method != 8 { continue; }
             let mut r = next_rng();
             let pw = b"helloworld".to_vec();
-            let plain = r.bytes(100_000);
+            // deflate needs its first stored block to end inside the decoder's first 32 KiB refill with more behind it
+            let big_len = if method == 8 { 100_000 } else { 50_000 };
+            let plain = r.bytes(big_len);
             let salt = r.bytes(bits / 16);
             let b = build_case(ver, bits, method, &pw, &plain, &salt, false, ver == 2);
             let cs = b.f.csize as u64;
-            let info = format!("ae{ver}/{bits}/m{method}/len100000");
+            let info = format!("ae{ver}/{bits}/m{method}/len{big_len}");
             g.push("read.big.right", read_line("plain", &info, &b.f, bits, cs, Some(&pw), &b.enc.inner, &plain, "8192,5000"));
             let total = b.enc.payload.len();
             // a flip in the last ciphertext byte, in the authentication code, and in the first ciphertext byte
             for (tag, bit) in [("ct-last", (total - 11) * 8 + 3), ("mac", (total - 4) * 8), ("ct-first", (bits / 16 + 2) * 8)] {
                 let mut f2 = Fields { body: b.f.body.clone(), extra: b.f.extra.clone(), pre: None, ..b.f };
                 f2.body[bit / 8] ^= 1 << (bit % 8);
-                let info = format!("ae{ver}/{bits}/m{method}/len100000/flip-{tag}:{bit}");
+                let info = format!("ae{ver}/{bits}/m{method}/len{big_len}/flip-{tag}:{bit}");
                 g.push(&format!("read.big.flip.{tag}"), read_line("tamper", &info, &f2, bits, cs, Some(&pw), &b.enc.inner, &plain, "8192,5000"));
                 // every other consumer API: the flip in the first ciphertext byte of a deflated entry ends the compressed
                 // stream with most of the ciphertext unread - only `ZipFile::read`'s drain reaches the authentication code
                 // (a `read_to_end` / `read_exact` specialisation that goes around `ZipFile::read` returns truncated data)
                 for api in &APIS[1..] {
-                    if (method == 8 && (tag == "ct-first" || *api == "rte")) || (method == 0 && *api == "rte" && tag == "mac") {
+                    if (method == 8 && ((tag == "ct-first" && ver == 2) || *api == "rte")) || (method != 8 && *api == "rte" && tag == "mac") {
                         g.push(&format!("read.big.flip.{tag}.api-{api}"), with_api(read_line("tamper", &info, &f2, bits, cs, Some(&pw), &b.enc.inner, &plain, "8192,5000"), api));
                     }
                 }
             }
-            g.push("read.big.right.api-rte", with_api(read_line("plain", &info, &b.f, bits, cs, Some(&pw), &b.enc.inner, &plain, "8192,5000"), "rte"));
+            if method == 8 {
+                g.push("read.big.right.api-rte", with_api(read_line("plain", &info, &b.f, bits, cs, Some(&pw), &b.enc.inner, &plain, "8192,5000"), "rte"));
+            }
+        }
+
+        // ---- H'. a decoder that finishes EARLY with more than 32 KiB of ciphertext behind it: the inner stream is a
+        // complete compressed stream followed by 36 000 further bytes, honestly encrypted and authenticated. Deflate and
+        // bzip2 stop at the end of their stream, so only `finish_crypto`'s drain ever reaches the authentication code:
+        // the honest entry reads as its content, ONE flipped bit anywhere in the unread tail (or in the code) must be a
+        // read error through every consumer API. (zstd goes on to the next frame: the honest entry already fails in the
+        // decoder; kept for the comparison with the model.)
+        for (k, (ver, bits, method)) in [(2u16, 256usize, 8u16), (1, 128, 8), (2, 192, 12), (1, 256, 12), (2, 128, 93)].into_iter().enumerate() {
+            if tier == "quickx" { continue; }
+            // every consumer API on the AE-2 deflate / bzip2 cases (no CRC behind the code), loop + read_to_end on the others
+            let all_apis = ver == 2 && method != 93;
+            let mut r = next_rng();
+            let pw = b"helloworld".to_vec();
+            let plain = mk_plain(&mut r, 150 + 50 * k);
+            let salt = r.bytes(bits / 16);
+            let stream = compress_inner(method, &plain);
+            let mut inner = stream.clone();
+            inner.extend(r.bytes(36_000));
+            let b = build_case_inner(ver, bits, method, &pw, inner, &plain, &salt, k % 2 == 0, false);
+            let cs = b.f.csize as u64;
+            let total = b.enc.payload.len();
+            let ct0 = bits / 16 + 2;
+            let info = format!("ae{ver}/{bits}/m{method}/stream{}+tail36000", stream.len());
+            let honest = if method == 93 { "nopanic" } else { "plain" };
+            for api in APIS {
+                if all_apis || api == "loop" || (api == "rte" && method != 93) {
+                    g.push(&format!("read.tail.honest.m{method}"), with_api(read_line(honest, &info, &b.f, bits, cs, Some(&pw), &b.enc.inner, &plain, "4096"), api));
+                }
+            }
+            let spots = [
+                ("tail-first", (ct0 + stream.len()) * 8 + r.below(8) as usize),
+                ("tail-33k", (ct0 + 33_000 + r.below(1000) as usize) * 8 + r.below(8) as usize),
+                ("tail-last", (total - 11) * 8 + r.below(8) as usize),
+                ("mac", (total - 10) * 8 + r.below(80) as usize),
+            ];
+            for (tag, bit) in spots {
+                let mut f2 = Fields { body: b.f.body.clone(), extra: b.f.extra.clone(), pre: None, ..b.f };
+                f2.body[bit / 8] ^= 1 << (bit % 8);
+                let info = format!("{info}/flip-{tag}:{bit}");
+                for api in APIS {
+                    if (tag == "tail-33k" && all_apis) || api == "loop" || (api == "rte" && (method != 93 || tag == "tail-33k")) {
+                        g.push(&format!("read.tail.flip.{tag}.m{method}"), with_api(read_line("tamper", &info, &f2, bits, cs, Some(&pw), &b.enc.inner, &plain, "4096"), api));
+                    }
+                }
+            }
         }
 
         // ---- the repo fixture (password from /repo/tests/aes_encryption.rs)
@@ -1099,6 +1256,7 @@ impl Stream for Aes {
             "aes.layer" => run_layer(&a),
             "aes.read" => run_read(&a),
             "aes.extra" => run_extra(&a),
+            "aes.kat" => run_kat(&a),
             // maintenance only (never generated): search a second password with the same 2-byte verifier
             "aes.findcoll" => {
                 let (pw, salt, bits) = match (get_hex(&a, "pw"), get_hex(&a, "salt"), get_u64(&a, "bits")) {
@@ -1156,6 +1314,13 @@ impl Stream for Aes {
                     fail("a successful read returned bytes different from the original".into());
                 }
             }
+            "aes.kat" => {
+                let want = format!("kat {}", a.get("want").cloned().unwrap_or_default());
+                if resp != want {
+                    fail(format!("known-answer test of a primitive shared by the harness's encryptor and the crate ({} {}): got `{resp}`, the published value is `{want}`",
+                        a.get("prim").cloned().unwrap_or_default(), a.get("src").cloned().unwrap_or_default()));
+                }
+            }
             "aes.layer" => {
                 let want = format!("len={} h={} ", a.get("elen").cloned().unwrap_or_default(), a.get("eh").cloned().unwrap_or_default());
                 let complete = resp.starts_with("v=ok") && resp.contains(",eof ") || resp.contains("r=eof ");
@@ -1174,6 +1339,7 @@ impl Stream for Aes {
     fn nontrivial(&self, line: &str, resp: &str) -> bool {
         if line.starts_with("aes.read") { resp.contains("file=ok") }
         else if line.starts_with("aes.layer") { resp.starts_with("v=ok") }
+        else if line.starts_with("aes.kat") { resp.starts_with("kat ") }
         else { resp.starts_with("ok") }
     }
 }
